@@ -1099,7 +1099,14 @@ def run_r2(res: Result, tier: str, ngroups: int, prefix: tuple[int, ...], ws: bo
             ("Ranges2D/list-groups", gtexts, base if groups else "core"),
         ]
         if ws and groups:
-            cases += [(e, f(gtexts), cls if base == "core" else base) for e, f, cls in R2_WS]
+            # a tab after an empty inner part ("0:<TAB>1") is ambiguous (separator or padding of the next
+            # numeral?) - the statement fixes no reading, so that rendering is not generated
+            ambiguous_tab = any(i is not None and not i.vals for _o, i in groups[:-1])
+            cases += [
+                (e, f(gtexts), cls if base == "core" else base)
+                for e, f, cls in R2_WS
+                if not (e == "unravel_2d/tab" and ambiguous_tab)
+            ]
         for entry, inp, cls in cases:
             judge_range(res, entry, inp, expected, cls, extra)
         n += len(cases)
